@@ -132,6 +132,34 @@ def gen_labels(repo):
     # which operands are references
     if 'if!op.operand_snippet.starts_with("#"){new_line.references.push(val);}' not in pi:
         raise TranslatorError("push_instruction: reference rule not recognised")
+    # ---- what bounds the reads of the disassembly loop: the requested range, never the image
+    tdr = squeeze(fn_body(src, "try_data_run"))
+    isi = squeeze(fn_body(src, "is_instruction"))
+    dis = squeeze(fn_body(src, "disassemble"))
+    if "while(ptr0==ptr||ptr<end)&&ptr0<end&&(pos_str.1||neg_str.1||uniform.1||pat2.1||pat4.1){letc=img[ptr];" not in tdr:
+        raise TranslatorError("try_data_run: scan loop bound not recognised")
+    if tdr.count("img[") != 9 or tdr.count("img.get(") + tdr.count("img.iter(") + tdr.count("img.len(") > 2:
+        # img[ptr], img[ptr-1], img[ptr-2], img[ptr-4], img[ptr0] (DS), 2 x look-ahead, 2 x string slice
+        if not (tdr.count("img[") == 7 and tdr.count("img.get(") == 2):
+            raise TranslatorError("try_data_run: unexpected reads of the image (%d index, %d get)" % (tdr.count("img["), tdr.count("img.get(")))
+    kinds = []
+    for cnt in ("pos_str.0", "neg_str.0"):
+        e = re.escape(cnt)
+        if re.search(r"letlookahead:Option<u8>=matchptr0\+%s<end\{true=>Some\(img\[ptr0\+%s\]\),false=>None\};" % (e, e), tdr):
+            kinds.append("rangeEnd")
+        elif re.search(r"letlookahead:Option<u8>=img\.get\(ptr0\+%s\)\.copied\(\);" % e, tdr):
+            kinds.append("imageEnd")
+        else:
+            raise TranslatorError("try_data_run: look-ahead of the %s string not recognised" % cnt)
+    if kinds[0] != kinds[1]:
+        raise TranslatorError("try_data_run: the two string look-aheads are bounded differently (%s / %s)" % tuple(kinds))
+    if "ifaddr+1+2<=end{" not in isi or "ifaddr+1+operand_bytes<=end{" not in isi:
+        raise TranslatorError("is_instruction: operand bound not recognised")
+    if "whileaddr<addr_range[1]{ifletSome((op,operand_bytes))=self.is_instruction(img[addr],addr,addr_range[1],&proc){" not in dis \
+       or "letdata_bytes=self.try_data_run(img,addr,addr_range[1]);" not in dis:
+        raise TranslatorError("disassemble: loop bounds not recognised")
+    if "DasmRange::All=>[0,img.len()]" not in dis or "DasmRange::Range([beg,end])=>[beg,end]" not in dis:
+        raise TranslatorError("disassemble: range selection not recognised")
     d = digest([path])
     L = []
     L.append("/-! GENERATED by /verif/translator/gen_c15.py from %s -- do not edit; regenerated on every run.\n"
@@ -148,6 +176,15 @@ def gen_labels(repo):
     L.append("")
     L.append("/-- the guard found in the current source: `%s` -/" % key)
     L.append("def labelKey : LabelKey := .%s" % kind)
+    L.append("")
+    L.append("/-- what bounds the string look-ahead of `try_data_run` (the byte after an ASC/DCI run): `rangeEnd` =\n"
+             "`ptr0 + n < end`, `imageEnd` = `img.get(ptr0 + n)` (reads beyond the requested range) -/")
+    L.append("inductive LookBound where")
+    L.append("  | rangeEnd | imageEnd")
+    L.append("  deriving DecidableEq, Repr, Inhabited")
+    L.append("")
+    L.append("/-- found in the current source (scan loop, operand fit and main loop are bounded by the range end) -/")
+    L.append("def lookBound : LookBound := .%s" % kinds[0])
     L.append("")
     L.append('def sourceDigest : String := "%s"' % d)
     L.append("")
